@@ -125,3 +125,10 @@ claim(
     "Not decided: byte-for-byte immutability of the legacy file (opening it runs CREATE TABLE IF NOT EXISTS and auto_migrate), numeric fidelity of migrated instants.",
     "call-site argument/parameter mapping, id typestate over derived source/sink facts, CFG path conditions for the trigger, finite constant folding of the two file-name expressions",
 )
+claim(
+    "C11",
+    "other",
+    "Structural necessary conditions of the hand-written front-end, each decided on the source and each with a named program that a violation mis-evaluates: every token scanner returns a partition of its input (complementary slices at one cut, or a prefix accumulator with its exact remainder); bracket depth changes only on paths outside both kinds of quotes and quote toggles honour the escape test; argument / entry loops store exactly one parsed value on every non-raising path and interpretation maps every argument, element and entry in order; statements are parsed and interpreted one at a time against the current namespace; registered functions take their injected parameters first and the wrappers forward positionally; the token-class table is exhaustive, ordered, and every class defines check/parse/interpret.",
+    "That the scanners accept exactly the grammar and denote the right value for EVERY program (language equivalence with a reference parser/evaluator) is not a shape property and is NOT decided.",
+    "slice-complementarity and prefix-accumulator rules on returns; loop-body path enumeration for quote guards and one-value-per-iteration; shape matching of interpretation and registry wrappers",
+)
